@@ -708,3 +708,93 @@ def dispatcher_specs(prop='C03'):
         out.append(Fragment(ident, prop, f'dispatch.{fn}', [c for c in cases if c['fn'] == fn], run, min_obligations=1,
                             notes='handler / raw path / modification context as recorded stubs; _put_one: non-sliceable field'))
     return out
+
+
+def replace_specs(prop='C12'):
+    """fst:FST.replace - the ROOT branch (the non-root branch only delegates to the parent's dispatcher, see
+    dispatcher_specs).  Contract:
+      refused       deleting the root, a `to` option, an already consumed tree and a non-root node as code are refused
+                    with ValueError, and at that point `_lines` and the AST link of the root are what they were (no call
+                    of _set_ast, no store to _lines)
+      carried out   `_set_ast` is called exactly once, inside the modification context, with the new tree's AST - which is
+                    not None (precondition of _set_ast: it stores `ast.f`) - and unmake=True; `_lines` is the new tree's
+                    line list; the result is self
+    code_as_all is stubbed by its contract (an FST is returned as itself unless it has a parent -> ValueError; source is
+    parsed into a fresh root tree)."""
+    from pyvc.contract import Fragment
+    from pyvc.interp import Interp, IFunc, SObj, PyRaise
+
+    def run(ctx, case, loc, pre, label):
+        log = []
+        LINES0 = ['old']
+        a0 = SObj('a0', {})
+        self = SObj('self', {}, a=a0, parent=None, _lines=LINES0, _parse_params={})
+
+        class Cm:
+            def __enter__(self_):
+                log.append('enter')
+                return self_
+
+            def __exit__(self_, et, ev, tb):
+                log.append('exit')
+                return False
+        self._set('_modifying', lambda *a, **k: Cm(), count=False)
+
+        def set_ast(ast_, unmake=False):
+            log.append(('set_ast', ast_, unmake))
+            ctx.prove(f'{pre}.root.set_ast_precondition[{label}]', ast_ is not None,
+                      info='_set_ast stores ast.f: it may only be handed a live AST')
+            self._set('a', ast_, count=False)
+        self._set('_set_ast', set_ast, count=False)
+        kind = case['code']
+        if kind == 'fst':
+            code = SObj('code_fst', {}, a=SObj('code_a', {}), parent=None, _lines=['new'], __isfst=True)
+        elif kind == 'consumed':
+            code = SObj('dead_fst', {}, a=None, parent=None, _lines=['dead'], __isfst=True)
+        elif kind == 'nonroot':
+            code = SObj('child_fst', {}, a=SObj('child_a', {}), parent=SObj('par', {}), _lines=['other'], __isfst=True)
+        elif kind == 'none':
+            code = None
+        else:
+            code = 'SRC'
+        parsed = []
+
+        def code_as_all(c, options=None, parse_params=None, **kw):
+            log.append('coerce')
+            if isinstance(c, SObj):
+                if c._get('parent'):
+                    raise PyRaise(ValueError('expecting root node'))
+                return c
+            r = SObj('parsed_fst', {}, a=SObj('parsed_a', {}), parent=None, _lines=['parsed'], __isfst=True)
+            parsed.append(r)
+            return r
+        opts = {'to': SObj('to_node', {})} if case.get('to') else {}
+        FSTCLS = SObj('FSTcls', {})
+        it = Interp({'check_options': lambda o: None, 'code_as_all': code_as_all, 'FST': FSTCLS})
+        it.globals['isinstance'] = lambda o, t: isinstance(o, SObj) and o._get('__isfst') is True
+        f = IFunc(it, loc.node, None, 'replace')
+        refuse = kind in ('consumed', 'nonroot', 'none') or case.get('to')
+        try:
+            r = it.call(f, (self, code, True), opts)
+        except PyRaise as pr:
+            ctx.notes['outcome'] = f'raise {pr.cls.__name__}'
+            ctx.prove(f'{pre}.root.refusal.only_documented[{label}]', bool(refuse) and pr.cls is ValueError)
+            ctx.prove(f'{pre}.root.refusal.root_untouched[{label}]',
+                      self._get('_lines') is LINES0 and self._get('a') is a0 and not [x for x in log if x[:1] == ('set_ast',)],
+                      info='a refused root replacement must leave the lines and the AST link of the root alone')
+            ctx.prove(f'{pre}.root.refusal.context_closed[{label}]', log.count('enter') == log.count('exit'))
+            return
+        ctx.notes['outcome'] = 'return'
+        ctx.prove(f'{pre}.root.guard.not_bypassed[{label}]', not refuse)
+        new = code if kind == 'fst' else (parsed[0] if parsed else None)
+        calls = [x for x in log if x[:1] == ('set_ast',)]
+        ctx.prove(f'{pre}.root.done.set_ast_once_in_context[{label}]',
+                  new is not None and len(calls) == 1 and calls[0][1] is new._get('a') and calls[0][2] is True and
+                  log.index('enter') < log.index(calls[0]) < log.index('exit'))
+        ctx.prove(f'{pre}.root.done.lines_and_result[{label}]', new is not None and self._get('_lines') is new._get('_lines')
+                  and r is self)
+
+    cases = [dict(code=c) for c in ('src', 'fst', 'consumed', 'nonroot', 'none')] + [dict(code='src', to=True),
+                                                                                      dict(code='fst', to=True)]
+    return [Fragment('fst:FST.replace', prop, 'replace', cases, run, min_obligations=1,
+                     notes='root branch; check_options / code_as_all / _modifying / _set_ast as recorded stubs')]
